@@ -588,7 +588,7 @@ def run(ctx):
         rc_pairs = getattr(ctx, "_c02_rc_pairs", [])
         if rc_pairs and (ok or coq_make(["C02/Mlrrc.vo"])[0]):
             terms = ["(%s, %s)" % (coq_bytes(t.encode()), coq_list([coq_bytes(a.encode()) for a in argv])) for t, argv in rc_pairs]
-            b, e = coq_eval_mismatches(ctx, "C02rc", "C02.Mlrrc", "bytes * list bytes", "chk_rc", terms)
+            b, e = coq_eval_mismatches(ctx, "C02rc", "Base.Record C02.Mlrrc", "bytes * list bytes", "chk_rc", terms)
             ctx.cov["correspondence_mlrrc"] = {"cases": len(terms), "mismatches": len(b)}
             if e:
                 ctx.violation({"broken": "correspondence-evaluation C02.Mlrrc", "detail": e[-1500:]}, found_input=False)
